@@ -307,6 +307,133 @@ example :
       [[88, 45, 66], [120, 45, 98], [88, 45, 68]]).map (·.key) =
       [[88, 45, 65], [88, 45, 66], [88, 45, 68]] := by decide
 
+/-! ### fields of one name, and the unlisted fields, keep their order -/
+
+section SameIdx
+variable {α : Type} (idx : α → Option Nat)
+
+/-- a step that inserts `x` somewhere without disturbing the `Q`-elements … -/
+theorem foldl_filter_step (step : α → List α → List α) (Q : α → Bool)
+    (hstep : ∀ x ys, (step x ys).filter Q = if Q x then x :: ys.filter Q else ys.filter Q)
+    (l acc : List α) :
+    (l.foldl (fun acc x => step x acc) acc).filter Q = (l.filter Q).reverse ++ acc.filter Q := by
+  induction l generalizing acc with
+  | nil => simp
+  | cons x xs ih =>
+    rw [List.foldl_cons, ih, hstep, List.filter_cons]
+    cases Q x <;> simp
+
+theorem ins_filter_unlisted (Q : α → Bool) (hQ : ∀ z, Q z = true → idx z = none) (x : α) (ys : List α) :
+    (ins idx x ys).filter Q = if Q x then x :: ys.filter Q else ys.filter Q := by
+  induction ys with
+  | nil => simp [ins, List.filter_cons]
+  | cons y ys ih =>
+    unfold ins
+    split
+    next hlt =>
+      rw [List.filter_cons, ih]
+      cases hx : Q x with
+      | false => simp [List.filter_cons]
+      | true =>
+        cases hy : Q y with
+        | false => simp [hy]
+        | true =>
+          exfalso
+          simp only [keyAt, hQ x hx, hQ y hy] at hlt
+          omega
+    next => simp [List.filter_cons]
+
+theorem insL_filter_same (i : Nat) (Q : α → Bool) (hQ : ∀ z, Q z = true → idx z = some i) (x : α) (F : List α) :
+    (insL idx x F).filter Q = if Q x then x :: F.filter Q else F.filter Q := by
+  induction F with
+  | nil => simp [insL, List.filter_cons]
+  | cons y F ih =>
+    unfold insL
+    split
+    next hlt =>
+      rw [List.filter_cons, ih]
+      cases hx : Q x with
+      | false => simp [List.filter_cons]
+      | true =>
+        cases hy : Q y with
+        | false => simp [hy]
+        | true =>
+          exfalso
+          simp [olt, hQ x hx, hQ y hy] at hlt
+    next => simp [List.filter_cons]
+
+theorem stableSort_filter_same (i : Nat) (Q : α → Bool) (hQ : ∀ z, Q z = true → idx z = some i) (l : List α) :
+    (stableSort idx l).filter Q = l.filter Q := by
+  unfold stableSort
+  rw [List.filter_reverse, foldl_filter_step (insL idx) Q (insL_filter_same idx i Q hQ)]
+  simp
+
+/-- **the elements sharing one position keep their relative order** — listed at the same list
+entry (fields of one name, names differing only in case) or unlisted (all the other fields). -/
+theorem isort_filter_same_idx (v : Option Nat) (P : α → Bool) (l : List α) :
+    (isort idx l).filter (fun z => P z && idx z == v) = l.filter (fun z => P z && idx z == v) := by
+  cases v with
+  | none =>
+    unfold isort
+    rw [List.filter_reverse, foldl_filter_step (ins idx) _
+      (ins_filter_unlisted idx _ (by intro z hz; simp at hz; exact hz.2))]
+    simp
+  | some i =>
+    have hQ : ∀ z, (P z && idx z == some i) = true → idx z = some i := by
+      intro z hz; simp at hz; exact hz.2
+    have hQL : ∀ m : List α, m.filter (fun z => P z && idx z == some i) =
+        (m.filter (isListed idx)).filter (fun z => P z && idx z == some i) := by
+      intro m
+      rw [List.filter_filter]
+      apply List.filter_congr
+      intro z _
+      cases h : (P z && idx z == some i) with
+      | false => simp
+      | true => simp [isListed, hQ z h]
+    rw [hQL (isort idx l), isort_listed_subsequence, stableSort_filter_same idx i _ hQ, ← hQL]
+
+end SameIdx
+
+/-- **sort_same_name_order**: whatever the order list, the fields of one name (canonical forms
+compared: a key in several spellings, the separate one-value groups HTTP/3 makes of a multi-valued
+key) come out in the order they were collected — the sort never swaps two values of a header. -/
+theorem sort_same_name_order (kvs : List KV) (order : List Bytes) (ck : Bytes) :
+    (sortKeyValues kvs order).filter (fun kv => canonicalKey kv.key == ck) =
+      kvs.filter (fun kv => canonicalKey kv.key == ck) := by
+  have hcongr : ∀ m : List KV, m.filter (fun kv => canonicalKey kv.key == ck) =
+      m.filter (fun z => (canonicalKey z.key == ck) && (lastIndex order z.key == lastIdxSpec ck order)) := by
+    intro m
+    apply List.filter_congr
+    intro z _
+    cases h : canonicalKey z.key == ck with
+    | false => simp
+    | true =>
+      have : canonicalKey z.key = ck := by simpa using h
+      simp [lastIndex_spec, this]
+  rw [hcongr, hcongr]
+  exact isort_filter_same_idx _ _ _ kvs
+
+/-- **sort_unlisted_keep_order**: specifying an order never reorders the OTHER fields among
+themselves: the unlisted fields come out in collection order. -/
+theorem sort_unlisted_keep_order (kvs : List KV) (order : List Bytes) :
+    (sortKeyValues kvs order).filter (fun kv => !listedBy order kv) =
+      kvs.filter (fun kv => !listedBy order kv) := by
+  have hcongr : ∀ m : List KV, m.filter (fun kv => !listedBy order kv) =
+      m.filter (fun z => true && (lastIndex order z.key == none)) := by
+    intro m
+    apply List.filter_congr
+    intro z _
+    simp only [listedBy, Bool.true_and]
+    cases lastIndex order z.key <;> simp
+  rw [hcongr, hcongr]
+  exact isort_filter_same_idx _ none _ kvs
+
+/-- non-vacuity: X-A=1, Z, x-a=2, B, X-A=3 with the list "B","x-A": the three X-A fields stay 1, 2, 3. -/
+example :
+    (sortKeyValues [⟨[88, 45, 65], [[49]]⟩, ⟨[90], [[48]]⟩, ⟨[120, 45, 97], [[50]]⟩, ⟨[66], [[57]]⟩, ⟨[88, 45, 65], [[51]]⟩]
+      [[66], [120, 45, 65]]).map (·.values) = [[[57]], [[49]], [[48]], [[50]], [[51]]] := by decide
+
+
 /-! ## 2. transparent re-sends -/
 
 /-! ### sanitising a value twice = sanitising it once -/
